@@ -246,3 +246,77 @@ fn nodes_into_order(mut nodes: IndexMap<NaiveDateTime, Number>, ad: ADOrder, id:
         }
     }
 }
+
+// Verification hooks: crate-visible forwards to the Python-facing methods above, so that an
+// external monitor can drive exactly the code paths a Python caller drives.
+#[cfg(feature = "verif")]
+impl Curve {
+    #[allow(clippy::too_many_arguments)]
+    pub(crate) fn verif_new(
+        nodes: IndexMap<NaiveDateTime, Number>,
+        interpolator: CurveInterpolator,
+        ad: ADOrder,
+        id: String,
+        convention: Convention,
+        modifier: Modifier,
+        calendar: CalType,
+        index_base: Option<f64>,
+    ) -> PyResult<Self> {
+        Self::new_py(
+            nodes,
+            interpolator,
+            ad,
+            id,
+            convention,
+            modifier,
+            calendar,
+            index_base,
+        )
+    }
+
+    pub(crate) fn verif_inner(&self) -> &CurveDF<CurveInterpolator, CalType> {
+        &self.inner
+    }
+
+    pub(crate) fn verif_nodes(&self) -> IndexMap<NaiveDateTime, Number> {
+        self.nodes()
+    }
+
+    pub(crate) fn verif_ad(&self) -> ADOrder {
+        self.ad()
+    }
+
+    pub(crate) fn verif_interpolation(&self) -> String {
+        self.interpolation()
+    }
+
+    pub(crate) fn verif_index_value(&self, date: NaiveDateTime) -> PyResult<Number> {
+        self.index_value_py(date)
+    }
+
+    pub(crate) fn verif_set_ad_order(&mut self, ad: ADOrder) -> PyResult<()> {
+        self.set_ad_order(ad)
+    }
+
+    pub(crate) fn verif_getitem(&self, date: NaiveDateTime) -> Number {
+        self.__getitem__(date)
+    }
+
+    pub(crate) fn verif_eq(&self, other: &Curve) -> bool {
+        self.__eq__(other.clone())
+    }
+
+    pub(crate) fn verif_to_json(&self) -> PyResult<String> {
+        self.to_json_py()
+    }
+
+    /// The byte state produced by `__getstate__`.
+    pub(crate) fn verif_getstate(&self) -> Vec<u8> {
+        serialize(&self).unwrap()
+    }
+
+    /// The object restored by `__setstate__` (as a `Result` instead of unwrapping).
+    pub(crate) fn verif_from_state(state: &[u8]) -> Result<Self, bincode::Error> {
+        deserialize(state)
+    }
+}
